@@ -147,6 +147,47 @@ func c07Try(r *core.Rec, coder rsec16.Coder, kind string, d, p int, orig, parity
 			}
 		}
 	}
+	// the same call with the parity list cut off behind its last available shard (a shorter list is legitimate) and
+	// handed in as a window into a longer list whose further entries are non-nil shards of something else: what lies
+	// behind the window must not be taken for offered parity
+	if L := lastTrue(missP); L < p {
+		arena := make([][]byte, p+d+3)
+		for i := range arena {
+			if i < L {
+				if !missP[i] {
+					arena[i] = append([]byte{}, parity[i]...)
+				}
+			} else {
+				arena[i] = bytes.Repeat([]byte{0x5a, 0xa5}, len(orig[0])/2)
+			}
+		}
+		data2 := make([][]byte, d)
+		for i := 0; i < d; i++ {
+			if !missD[i] {
+				data2[i] = append([]byte{}, orig[i]...)
+			}
+		}
+		var errW error
+		if pi := core.Catch(func() { errW = coder.ReconstructData(data2, arena[:L]) }); pi != nil {
+			r.Violatef("reconstruct-panic:"+pi.Frame, "short parity list, %s: %s", what, pi.Value)
+			return
+		}
+		r.AddTransitions(1)
+		_, ne1 := err.(rsec16.NotEnoughParityShardsError)
+		_, ne2 := errW.(rsec16.NotEnoughParityShardsError)
+		if (err == nil) != (errW == nil) || ne1 != ne2 {
+			r.Violatef("short-parity-window-changes-the-outcome", "%s: with the full-length parity list the call returned %v, with the list cut off behind the last available shard (entries behind the window non-nil) it returned %v", what, err, errW)
+			return
+		}
+		if errW == nil {
+			for i := 0; i < d; i++ {
+				if !bytes.Equal(data2[i], orig[i]) {
+					r.Violatef("short-parity-window-changes-the-outcome", "%s: with the parity list cut off behind the last available shard the call returned nil but shard %d differs from the original", what, i)
+					return
+				}
+			}
+		}
+	}
 	if nMissD > len(avail) {
 		if _, ok := err.(rsec16.NotEnoughParityShardsError); !ok {
 			r.Violatef("not-enough-parity-not-reported", "%s: expected NotEnoughParityShardsError, got %v", what, err)
@@ -498,10 +539,21 @@ func init() {
 		ID:    "C07",
 		Level: "model_checking",
 		Rule: "bounded-exhaustive erasure patterns: both coders x every (d<=6,p<=5) (thorough d<=8,p<=6) x EVERY subset of missing data shards x EVERY subset of missing parity shards x shard length {2,4,14,16,18,32,34,66} x goroutines {1,2,3,5}; Vandermonde parity also compared with the reference sum; structured large code (140,260): 2-erasures with only parity rows {0,e} available for every e (contains the construction's singular pairs), and 3-erasures built on every column pair whose 2x2 minor vanishes (zero pivots, i.e. row swaps during elimination) x every third column x three row sets; tight patterns on (8,12),(5,12),(3,14) (thorough more): every k-subset of missing data x every k-subset of surviving parity; Cauchy (140,20); the documented limits (incl. 32768 / 32767 / 257 / 256 data shards with 3 parity rows and 65535 parity rows for 1, 3 and 5 data shards: the highest rows are compared with the definition and used for reconstruction). " +
-			"Oracle: too few parity => NotEnoughParityShardsError; Cauchy always exact; Vandermonde exact iff the reference determinant of (lowest available rows x missing columns) != 0, else error or exact; nil => exact; supplied data shards unchanged; the shard lists are windows into longer lists, whose entries behind the window must not change. non-trivial = every case (all contain reconstructions)",
+			"Oracle: too few parity => NotEnoughParityShardsError; Cauchy always exact; Vandermonde exact iff the reference determinant of (lowest available rows x missing columns) != 0, else error or exact; nil => exact; supplied data shards unchanged; the shard lists are windows into longer lists, whose entries behind the window must not change; whenever the highest parity shards are unavailable the call is repeated with the parity list cut off behind the last available shard, as a window with non-nil entries behind it, and must give the same outcome. non-trivial = every case (all contain reconstructions)",
 		Assumptions: []string{"the statement does not constrain supplied parity shards; they are not compared"},
 		NewCase:     func() interface{} { return &c07Case{} },
 		Gen:         c07Gen,
 		Run:         c07Run,
 	})
+}
+
+// lastTrue returns 1 + the index of the last false entry (the length of the shortest prefix holding every available shard).
+func lastTrue(miss []bool) int {
+	L := 0
+	for i, m := range miss {
+		if !m {
+			L = i + 1
+		}
+	}
+	return L
 }
